@@ -41,8 +41,11 @@ def draw_structure(rng, *, strategies=("filter",), calibs=sk.CALIBS, lins=("ts0"
         cfg["diffuse"] = int(rng.integers(1, n - order + 1)) if n - order >= 1 else 0
         if cfg["diffuse"] == 0:
             cfg["init"] = "exact"
-    # an initial-constraint update needs a non-degenerate initial covariance
-    cfg["cinit"] = bool(cinit and cfg["init"] in ("inexact",) and rng.random() < 0.5)
+    # an initial-constraint update needs a non-degenerate initial covariance of the constrained coefficient:
+    # inexact initial states, or diffuse derivatives that include the coefficient of order `order`
+    # (the documented use of constraint_init)
+    informative = cfg["init"] == "inexact" or (cfg["init"] == "diffuse" and n - cfg["diffuse"] <= order)
+    cfg["cinit"] = bool(cinit and informative and rng.random() < 0.5)
     return cfg
 
 
